@@ -71,7 +71,7 @@ def decVal (t : String) : Option (Option Val) :=
 
 def handle (op : String) (args : List String) : Option String :=
   match op, args with
-  | "derive.value", id :: _backend :: toks => do
+  | "derive.value", id :: backend :: toks => do
     let row ← findStruct id
     if toks.length ≠ row.fields.length then none
     else
@@ -80,11 +80,16 @@ def handle (op : String) (args : List String) : Option String :=
       | none => pure "bad-ext"
       | some sk =>
         let spec := sk.map (·.1)
-        let items := toFields spec x
-        let rt := match fromFields (lookupFirst items) spec with
+        let verdict (r : Except Str (List (Option Val))) : String := match r with
           | .ok y => if y = x then "rt:same" else "rt:diff"
           | .error e => s!"rt:err {encStr e}"
-        pure s!"ok {showItems items} {rt}"
+        if backend == "lossless" then
+          let q := toParagraph treeBackend spec x
+          pure s!"ok {showItems (Deb.items q)} {verdict (fromParagraph treeBackend spec q)}"
+        else if backend == "lossy" then
+          let q := toParagraph lossyBackend spec x
+          pure s!"ok {showItems q} {verdict (fromParagraph lossyBackend spec q)}"
+        else none
   | "derive.from", [id, backend, ks, vs, es] => do
     let row ← findStruct id
     let entries ← mkEntries (← decList ks) (← decList vs) (← decExtList es)
